@@ -211,12 +211,12 @@ class C09(Prop):
     theorems = ["EaselModel.Props.C09." + t for t in (
         "mt19937_stream", "mt19937_64_stream", "fast_stream", "reinit_replays", "reinit_reports_seed",
         "seed0_nonzero32", "seed0_nonzero64", "nonzero_seed_kept", "roll_lt", "roll_unbiased32", "roll_unbiased64",
-        "random_unit", "rand64_double_ranges", "deal_spec", "deal_spec_abstract", "dchoose_nonzero", "dchoose_never_fatal", "dchoosecdf_nonzero", "dchoosecdf_never_fatal",
+        "random_unit", "rand64_double_ranges", "deal_spec", "deal_spec_abstract", "deal_spec_binary64", "dchoose_nonzero", "dchoose_never_fatal", "dchoosecdf_nonzero", "dchoosecdf_never_fatal",
         "rand64_deal_spec", "rand64_deal_spec_real", "rand64_deal_vprime_one_clamped", "rand64_deal_first_accepted",
         "uniformPositive_pos", "uniform_positive_unit", "gaussian_in_bounds", "gauss_table_sizes", "gamma_positive_real_partial", "dirichlet_simplex_real_partial",
         "mem_bytes", "floatstring_fits", "samplers_replay", "mt_constants_published", "model_constants_regenerated", "temper_linear",
         "seed0_create_replays", "seed0_init_replays", "rand64_init_replays", "dump_in_bounds", "dump_in_bounds_reinit", "dump_prefix_out_of_bounds",
-        "rand64_deal_spec_abstract", "rand64_deal_prefix_out_of_range", "rand64_deal_prefix_defect_carrier")] + ["EaselModel.MTP.fill_correct", "EaselModel.MTP.stream_eq_spec"]
+        "rand64_deal_spec_abstract", "rand64_deal_spec_binary64", "rand64_deal_prefix_out_of_range", "rand64_deal_prefix_defect_carrier")] + ["EaselModel.MTP.fill_correct", "EaselModel.MTP.stream_eq_spec"]
     claimed = True
     technique = "Lean 4 proof (generic in-place-refill = recurrence theorem, stream invariant by induction, roll/deal arithmetic) + exact differential correspondence of the executable model with the ASan/UBSan-built C generators"
     level_text = ("Theorems for all seeds and all stream positions: the model's MT19937 / MT19937-64 / LCG output equals the reference recurrence across any number of refills; "
@@ -275,7 +275,7 @@ class C09(Prop):
         if r < 0.4:
             if mersenne and rng.random() < 0.6:
                 k = rng.randrange(0, 65)
-                x = rng.choice([1, 2, 3, 0x7fffffff, 0x80000000, 0x80000001, 0x80000002, 0xffffffff, 0xfffffffe,
+                x = rng.choice([0, 1, 2, 3, 0x7fffffff, 0x80000000, 0x80000001, 0x80000002, 0xffffffff, 0xfffffffe,
                                 min(0xffffffff, max(1, k * (1 << 26) + rng.choice([-1, 0, 1]))), rng.randrange(1, 1 << 27),
                                 0x80000000 + rng.randrange(1, 1 << 27), rng.randrange(1, 1 << 12)])
                 ops.append("pokeraw w=%d" % untemper(x))
@@ -283,7 +283,9 @@ class C09(Prop):
             sd = rng.choice([1.0, 1.0, 0.0, 2.5, 1e-3, rng.uniform(0, 10)])
             ops.append("gauss mean=%s sd=%s" % (dbits(mean), dbits(sd)))
         elif r < 0.7:
-            a = rng.choice(self.GAMMA_A + [rng.uniform(0.001, 20.0), rng.uniform(0.001, 1.0), float(rng.randrange(1, 12))])
+            if mersenne and rng.random() < 0.3:     # first uniform of the Gamma regimes forced to 0 (rejected by UniformPositive), smallest, largest
+                ops.append("pokeraw w=%d" % untemper(rng.choice([0, 1, 2, 0xffffffff, 0xfffffffe, 0x80000000, rng.randrange(1, 1 << 10)])))
+            a = rng.choice(self.GAMMA_A + [rng.uniform(0.001, 20.0), rng.uniform(0.001, 1.0), float(rng.randrange(1, 12)), 0.001, 1e-5])
             ops.append("gamma a=%s" % dbits(a))
         elif r < 0.85:
             K = rng.randrange(1, 9)
@@ -314,6 +316,11 @@ class C09(Prop):
             {"name": "gamma-underflow", "ops": ["new32 seed=42"] + ["gamma a=%s" % dbits(0.001)] * 6 + ["pos32"]},
             {"name": "dirichlet-underflow", "ops": ["new32 seed=42"] + ["gamma a=%s" % dbits(0.001)] * 40
                      + ["dirichlet alpha=%s,%s" % (dbits(0.001), dbits(0.001))] * 3 + ["pos32", "u32 k=2"]},
+            {"name": "unipos-zero", "ops": ["new32 seed=3", "pokeraw w=%d" % untemper(0), "unipos", "pos32", "pokeraw w=%d" % untemper(1), "unipos",
+                     "pokeraw w=%d" % untemper(0), "gamma a=%s" % dbits(2.0), "pokeraw w=%d" % untemper(0), "gamma a=%s" % dbits(0.5),
+                     "pokeraw w=%d" % untemper(0), "gauss mean=%s sd=%s" % (dbits(0.0), dbits(1.0)), "pokeraw w=%d" % untemper(0), "gamma a=%s" % dbits(7.5), "pos32"]},
+            {"name": "deal-boundary", "ops": ["new32 seed=5", "pokeraw w=%d" % untemper(1 << 31), "deal m=1 n=2", "pokeraw w=%d" % untemper((1 << 31) - 1), "deal m=1 n=2",
+                     "pokeraw w=%d" % untemper(1 << 30), "deal m=1 n=4", "pokeraw w=%d" % untemper(3 << 30), "deal m=3 n=4", "pos32"]},
             {"name": "fast", "ops": ["newfast seed=1", "u32 k=3", "roll n=6", "init seed=1", "u32 k=3"]},
             # regression for fix ba43348: the accepted Vprime is exactly 1.0; before the fix the C code returned {7,27}
             {"name": "deal64-vprime-one",
@@ -388,13 +395,19 @@ class C09(Prop):
                     elif r < 0.6:
                         ops.append("random")
                     elif r < 0.65:
+                        if mers and rng.random() < 0.5:     # esl_rnd_UniformPositive must reject the raw word 0 (x == 0.0) and accept 1
+                            ops.append("pokeraw w=%d" % untemper(rng.choice([0, 0, 1, 0xffffffff])))
                         ops.append("unipos")
                     elif r < 0.78:
                         nn = rng.choice([1, 2, 5, 10, 100, rng.randrange(1, 3000)])
                         if rng.random() < 0.04:     # beyond 2^21 the product (n-j)*x no longer fits 53 bits: the binary64 test, not the exact one
                             nn = rng.choice([2**21, 2**21 + 1, 2**22 + 3, 3000000]); ops.append("deal m=%d n=%d" % (rng.choice([1, 2, 5]), nn))
                         else:
-                            ops.append("deal m=%d n=%d" % (rng.choice([0, 1, nn, nn // 2, rng.randrange(0, nn + 1)]), nn))
+                            mm = rng.choice([0, 1, nn, nn // 2, rng.randrange(0, nn + 1)])
+                            if mers and mm and rng.random() < 0.4:    # first test n*x/2^32 < m on its boundary: x next to m*2^32/n
+                                t = (mm << 32) // nn
+                                ops.append("pokeraw w=%d" % untemper(max(0, min(0xffffffff, t + rng.choice([-1, 0, 0, 1])))))
+                            ops.append("deal m=%d n=%d" % (mm, nn))
                     elif r < 0.84 and mers:
                         # categorical choice at a forced boundary roll: float / double vectors from normalised counts
                         # (sums slightly off 1), zeros anywhere incl. trailing; roll = 0, max, or next to a cumulative sum
